@@ -3,6 +3,7 @@ from .. import gen_lat
 from . import c06
 
 ID = 'C07'
+UPSTREAM_DECKS = True
 LEVEL = 'exploration'
 RULE = ('LAT=2 decks: hexagon built from three vertex vectors (regular and '
         'irregular centrally symmetric), any in-plane rotation, prism axis '
